@@ -66,6 +66,20 @@ func verifCheckStore(t *testing.T, s storage.StateStorer) bool {
 	if strings.Join(got, ",") != strings.Join(want, ",") {
 		t.Logf("REPLAY-CONFIRMED Iterate(\\"p_\\") visited %v, want exactly %v in ascending order", got, want); return true
 	}
+	// prefixes whose last bytes are 0xff (the range limit needs a carry, or no limit at all)
+	for _, pf := range []string{"q\\xff", "q\\xff\\xff", "\\xff", "\\xff\\xff"} {
+		for _, suf := range []string{"", "a", "\\xff"} { _ = s.Put(pf+suf, "x") }
+		var w []string
+		for _, suf := range []string{"", "a", "\\xff"} { w = append(w, pf+suf) }
+		var g []string
+		if err := s.Iterate(pf, func(k, v []byte) (bool, error) { if strings.HasPrefix(string(k), pf) && len(k) <= len(pf)+1 { g = append(g, string(k)) }; return false, nil }); err != nil { t.Logf("iterate: %v", err); return false }
+		sort.Strings(w)
+		have := map[string]bool{}
+		for _, k := range g { have[k] = true }
+		for _, k := range w {
+			if !have[k] { t.Logf("REPLAY-CONFIRMED Iterate(%q) does not visit the stored key %q (visited %q)", pf, k, g); return true }
+		}
+	}
 	// stop after two
 	n := 0
 	_ = s.Iterate("p_", func(k, v []byte) (bool, error) { n++; return n == 2, nil })
